@@ -1,7 +1,7 @@
 (* Heap_Proofs.v - soundness of the ownership analyser of Heap.v:
    a program accepted by [safe], run against a chain of accepted writers, leaves every source object with its original
    content and never hands a source object to any writer - on every execution path, including every early exit. *)
-From Coq Require Import List Arith Bool Lia.
+From Coq Require Import List Arith Bool.
 Import ListNotations.
 From RBQL Require Import Heap.
 
@@ -64,13 +64,13 @@ Section Sound.
   Lemma ginv_alloc : forall g l, ginv g -> ginv (g_alloc g l) /\ ~ In (g_next g) srcs.
   Proof.
     intros g l (Hh & Hn & Hp & Hl).
-    assert (Hfresh : ~ In (g_next g) srcs) by (intro Hi; apply Hn in Hi; lia).
+    assert (Hfresh : ~ In (g_next g) srcs) by (intro Hi; apply Hn in Hi; exact (Nat.lt_irrefl _ Hi)).
     split; [|exact Hfresh].
     unfold ginv, g_alloc; cbn. repeat split; auto.
     - intros i Hi. unfold heap_set. destruct (Nat.eqb i (g_next g)) eqn:E.
       + apply Nat.eqb_eq in E. subst i. contradiction.
       + apply Hh. exact Hi.
-    - intros i Hi. apply Hn in Hi. lia.
+    - intros i Hi. apply Hn in Hi. apply Nat.lt_lt_succ_r. exact Hi.
   Qed.
 
   Lemma ginv_write : forall g i l, ginv g -> ~ In i srcs -> ginv (g_write g i l).
